@@ -153,9 +153,10 @@ func knobs(trials int, failRate float64) func() {
 
 // exploreGen explores the decision tree of g.Generate().
 func exploreGen(g interface{}, lim explore.Limits, onLeaf func(GenOut, *tape.Tape)) *explore.Result {
+	lim.Hostile = true
 	return explore.Run(lim, func(t *tape.Tape) explore.Outcome {
 		out := runGen(g, t)
-		if !t.Cut && onLeaf != nil {
+		if !t.Cut && !t.Aux && onLeaf != nil {
 			onLeaf(out, t)
 		}
 		return explore.Outcome{Key: outcomeKey(out)}
